@@ -42,8 +42,9 @@ pub enum Pl {
     KeepAlive,
     /// file data length
     Unseg(usize),
-    /// segment metadata length, file data length
-    Seg(usize, usize),
+    /// segment metadata length, file data length, record continuation state (it shares the
+    /// first octet with the metadata length, so it is shape)
+    Seg(usize, usize, u8),
 }
 
 /// Shape of a reserved CFDP user operation (the 23 publicly constructible kinds).
@@ -222,8 +223,8 @@ fn build_payload(s: &mut Src, fss: Fss, p: Pl) -> Option<PDUPayload> {
             offset: s.fss(fss),
             file_data: s.bytes(n),
         })),
-        Pl::Seg(m, n) => PDUPayload::FileData(FileDataPDU::Segmented(SegmentedFileData {
-            record_continuation_state: rcs(s.u8()),
+        Pl::Seg(m, n, r) => PDUPayload::FileData(FileDataPDU::Segmented(SegmentedFileData {
+            record_continuation_state: rcs(r),
             segment_metadata: s.bytes(m),
             offset: s.fss(fss),
             file_data: s.bytes(n),
@@ -889,12 +890,14 @@ fn eq_val(a: &Val, b: &Val) -> bool {
 ///  * `canon`   Some((canonical length, canonical pins)) if the generator expects that datagrams
 ///              of this template CAN be accepted; None if it classifies the template as malformed
 ///              (then acceptance itself is reported -- it means the generator's model of the wire
-///              format is wrong or the decoder is more liberal than thought).
+///              format is wrong or the decoder is more liberal than thought) unless `lax`, in
+///              which case the harness only establishes absence of panics / non-termination.
 pub fn c06_decode(
     d: Dec,
     t: &Tpl,
     g: &Guards,
     canon: Option<(usize, &Pins)>,
+    lax: bool,
     v: &[u8],
 ) -> Outcome {
     let wire = wire_from_tpl(t, v);
@@ -909,10 +912,12 @@ pub fn c06_decode(
     let (cn, pins) = match canon {
         Some(c) => c,
         None => {
-            vcheck!(
-                false,
-                "decoder accepted a datagram the generator classified as malformed"
-            );
+            if !lax {
+                vcheck!(
+                    false,
+                    "decoder accepted a datagram the generator classified as malformed"
+                );
+            }
             return Outcome::Pass { accepted: true };
         }
     };
